@@ -1,6 +1,7 @@
 import LenaModel.DriverUtil
 import LenaModel.Model.C06
 import LenaModel.Model.C06Spec
+import LenaModel.Model.C06Compute
 /-! Model driver for C06.  Edge values / coordinates are integers (an order-embedding of the
 case's numbers), bin contents / weights are integers (exactly scaled).  The float interpolation
 guess of the search is supplied by the harness as a finite table; a missing entry is a guess
@@ -29,9 +30,13 @@ Extension round (every definition of `Model/C06Spec.lean` is executed here):
   hist also accepts per fill "pc":[cell]|null (the cell found by the harness) and adds "spec":{..} (see `specJson`)
   {"op":"initbins","edges":..,"init":int,"deep":bool}                     -> {"bins":nested} | {"e":name}
   {"op":"elem2","edges":..,"bins":..,"mk":null|nested,"init":int,"one":int,
-   "ops":[{"c":..,"ctx":int|null,"g":..} | {"reset":true},..]}
+   "ops":[{"c":..,"ctx":int|null,"g":..} | {"reset":true} | {"compute":true},..]}
       -> {"e":name,"phase":"init"} | {"e":name,"phase":"run"}
-       | {"bins":nested,"oor":int,"ctx":int|null,"tot":int,"ssum":int|null,"fresh":bool} -/
+       | {"bins":nested,"oor":int,"ctx":int|null,"tot":int,"ssum":int|null,"fresh":bool,
+          "ys":[{"bins":nested,"oor":int,"ctx":int|null},..] | {"e":name},   (`HistEl2.run3`: everything `compute()` yielded)
+          "bins3":nested,"oor3":int,"ctx3":..                                (final state of `HistEl2.run3`)
+          "syields":[ints]}                                                  (`specYields`)
+     ("bins".."fresh" come from `HistEl2.run` on `stripComputes ops`, the history without its computes) -/
 open Lean Lena Lena.Drv Lena.C06
 
 partial def parseNArr (j : Json) : Option (NArr Int) :=
@@ -235,6 +240,19 @@ def parseElOps : List Json → Option (List (ElOp Int (Option Int)))
       let tab ← parseTab (getD f "g")
       some (ElOp.fill (guessN tab) c (ctx.map some) :: r)
 
+def parseElOps3 : List Json → Option (List (ElOp3 Int (Option Int)))
+  | [] => some []
+  | f :: rest => do
+    let r ← parseElOps3 rest
+    match bool? (getD f "reset"), bool? (getD f "compute") with
+    | some true, _ => some (ElOp3.reset :: r)
+    | _, some true => some (ElOp3.compute :: r)
+    | _, _ =>
+      let c ← parseCoord (getD f "c")
+      let ctx ← optInt (getD f "ctx")
+      let tab ← parseTab (getD f "g")
+      some (ElOp3.fill (guessN tab) c (ctx.map some) :: r)
+
 def handle (j : Json) : Json :=
   match str? (getD j "op") with
   | some "bin1d" =>
@@ -291,8 +309,9 @@ def handle (j : Json) : Json :=
     | _, _, _ => err "bad initbins args"
   | some "elem2" =>
     match parseEdges (getD j "edges"), parseBins (getD j "bins"), parseBins (getD j "mk"), int? (getD j "init"),
-          int? (getD j "one"), (arr? (getD j "ops")).bind (fun a => parseElOps a.toList) with
-    | some edges, some bins, some mk, some init, some one, some ops =>
+          int? (getD j "one"), (arr? (getD j "ops")).bind (fun a => parseElOps3 a.toList) with
+    | some edges, some bins, some mk, some init, some one, some ops3 =>
+      let ops := stripComputes ops3
       match HistEl2.new (none : Option Int) edges bins mk init with
       | .error e => Json.mkObj [("e", exc e), ("phase", "init")]
       | .ok el =>
@@ -305,9 +324,17 @@ def handle (j : Json) : Json :=
             | .ok a, .ok b => narrJson a.hist.bins == narrJson b.hist.bins && a.hist.nOut == b.hist.nOut
             | .error a, .error b => a == b
             | _, _ => false
-          Json.mkObj [("bins", narrJson el'.hist.bins), ("oor", ofInt el'.hist.nOut),
+          -- the same history with its `compute()` calls
+          let r3 : List (String × Json) := match HistEl2.run3 (none : Option Int) one el ops3 with
+            | .error e => [("ys", Json.mkObj [("e", exc e)])]
+            | .ok (e3, ys) =>
+              [("ys", ofList (fun (y : Hist Int Int × Option Int) =>
+                  Json.mkObj [("bins", narrJson y.1.bins), ("oor", ofInt y.1.nOut), ("ctx", ofOpt ofInt y.2)]) ys),
+               ("bins3", narrJson e3.hist.bins), ("oor3", ofInt e3.hist.nOut), ("ctx3", ofOpt ofInt e3.curContext)]
+          Json.mkObj ([("bins", narrJson el'.hist.bins), ("oor", ofInt el'.hist.nOut),
                       ("ctx", ofOpt ofInt el'.curContext), ("tot", ofInt (total el'.hist.bins + el'.hist.nOut)),
-                      ("ssum", ofInt (specSum s0 one s0 ops)), ("fresh", Json.bool fresh)]
+                      ("ssum", ofInt (specSum s0 one s0 ops)), ("fresh", Json.bool fresh),
+                      ("syields", ofIntList (specYields s0 one s0 ops3))] ++ r3)
     | _, _, _, _, _, _ => err "bad elem2 args"
   | _ => err "unknown op"
 
